@@ -3,6 +3,7 @@ package variablesvalidation
 import (
 	"bytes"
 	"fmt"
+	"math"
 
 	"github.com/wundergraph/astjson"
 
@@ -297,6 +298,25 @@ func (v *variablesVisitor) renderVariableInvalidNestedTypeError(jsonValue *astjs
 	}
 }
 
+// integralNumber returns the value of a JSON number and whether it has no fractional part.
+func integralNumber(jsonValue *astjson.Value) (float64, bool) {
+	number, err := jsonValue.Float64()
+	if err != nil || math.IsInf(number, 0) || math.IsNaN(number) {
+		return 0, false
+	}
+	return number, number == math.Trunc(number)
+}
+
+func (v *variablesVisitor) renderVariableIntOutOfRangeError(jsonValue *astjson.Value) {
+	variableName := string(v.currentVariableName)
+	invalidValue := string(jsonValue.MarshalTo(nil))
+	var path string
+	if len(v.path) > 1 {
+		path = fmt.Sprintf(` at "%s"`, v.renderPath())
+	}
+	v.err = v.newInvalidVariableError(fmt.Sprintf(`%s%s; Int cannot represent non 32-bit signed integer value%s`, v.invalidValueMessage(variableName, invalidValue), path, v.invalidValueIfAllowed(invalidValue)))
+}
+
 func (v *variablesVisitor) renderVariableFieldNotDefinedError(fieldName []byte, typeName []byte) {
 	variableName := string(v.currentVariableName)
 	invalidValue := string(v.currentVariableValue.MarshalTo(nil))
@@ -488,6 +508,15 @@ func (v *variablesVisitor) traverseNamedTypeNode(jsonValue *astjson.Value, typeN
 				v.renderVariableInvalidNestedTypeError(jsonValue, fieldTypeDefinitionNode.Kind, typeName, false)
 				return
 			}
+			number, integral := integralNumber(jsonValue)
+			if !integral {
+				v.renderVariableInvalidNestedTypeError(jsonValue, fieldTypeDefinitionNode.Kind, typeName, false)
+				return
+			}
+			if number < math.MinInt32 || number > math.MaxInt32 {
+				v.renderVariableIntOutOfRangeError(jsonValue)
+				return
+			}
 		case "Float":
 			if jsonValue.Type() != astjson.TypeNumber {
 				v.renderVariableInvalidNestedTypeError(jsonValue, fieldTypeDefinitionNode.Kind, typeName, false)
@@ -502,6 +531,12 @@ func (v *variablesVisitor) traverseNamedTypeNode(jsonValue *astjson.Value, typeN
 			if jsonValue.Type() != astjson.TypeString && jsonValue.Type() != astjson.TypeNumber {
 				v.renderVariableInvalidNestedTypeError(jsonValue, fieldTypeDefinitionNode.Kind, typeName, false)
 				return
+			}
+			if jsonValue.Type() == astjson.TypeNumber {
+				if _, integral := integralNumber(jsonValue); !integral {
+					v.renderVariableInvalidNestedTypeError(jsonValue, fieldTypeDefinitionNode.Kind, typeName, false)
+					return
+				}
 			}
 		}
 	case ast.NodeKindEnumTypeDefinition:
